@@ -444,6 +444,7 @@ class FnEmitter:
         self.ref_ids = set()        # decl ids whose C variable is a pointer standing for a reference
         self.loop_no = 0
         self.call_counts = collections.Counter()
+        self.ptr_iter = {}
         self.stmt_calls = []        # calls seen while emitting the current statement
         self.ret_no = 0
         self.tmp_no = 0
@@ -580,6 +581,7 @@ class FnEmitter:
                 init = [c for c in d.get('inner', []) if c.get('kind', '').endswith(('Expr', 'Literal', 'Operator'))]
                 if not init: raise Unsupported('namespace-scope variable without initialiser ' + r['name'])
                 return f"(({self.T.c(tstr(d['type']))})({self.e(init[0])}))"
+            if r['id'] in self.ptr_iter: return self.ptr_iter[r['id']]
             nm = self.names.get(r['id'], r.get('name') or '_unnamed')
             rt = tstr(r['type'])
             if r['id'] in self.ref_ids or self.T.is_ref(rt): return f"(*{nm})"
@@ -825,6 +827,21 @@ class FnEmitter:
         if k == 'ForStmt':
             init, condvar, cond, inc, body = n['inner']
             if condvar: raise Unsupported('for with condition variable')
+            pit = self.pointer_iterator(init, inc, body)
+            if pit:
+                # for (T *it = <pointer parameter>; ...; ++it) with `it` advanced by that increment only: base + index normal form
+                # (it == base + it__i at every point; same rule as range-for). Loop contracts then carry a scalar index, never a pointer.
+                vid, vname, base = pit
+                idx = vname + '__i'
+                self.ptr_iter[vid] = f"({base} + {idx})"
+                out = [p + '{', p + f"    size_t {idx} = 0;"]
+                self.stmt_calls = []
+                c = self.e(cond) if cond else '1'
+                lc = self.loop_contract()
+                out += [p + f"    for (; {c}; (++{idx}))"] + lc + self.block(body, ind + 1)
+                out.append(p + '}')
+                del self.ptr_iter[vid]
+                return out
             out = [p + '{']
             if init: out += self.stmt(init, ind + 1)
             self.stmt_calls = []
@@ -881,6 +898,37 @@ class FnEmitter:
 
     def wrapg(self, g, lines, p):
         return g + lines
+
+    def pointer_iterator(self, init, inc, body):
+        """(var id, name, base expression) if the for-loop declares exactly one pointer variable initialised from a pointer PARAMETER, its increment is
+        ++var / var++, and the body never writes to var or takes its address; else None"""
+        if not init or init.get('kind') != 'DeclStmt' or len(init.get('inner', [])) != 1 or not inc: return None
+        v = init['inner'][0]
+        if v.get('kind') != 'VarDecl' or not tstr(v['type']).rstrip().endswith('*'): return None
+        vin = [c for c in v.get('inner', []) if 'Attr' not in c.get('kind', '')]
+        if len(vin) != 1: return None
+        b = self.skip_wrappers(vin[0])
+        while b.get('kind') == 'ImplicitCastExpr' and b.get('castKind') in ('LValueToRValue', 'NoOp'): b = self.skip_wrappers(b['inner'][0])
+        if b.get('kind') != 'DeclRefExpr' or b['referencedDecl'].get('kind') != 'ParmVarDecl' or b['referencedDecl']['id'] in self.ref_ids: return None
+        if self.T.is_ref(tstr(b['referencedDecl']['type'])): return None
+        i = self.skip_wrappers(inc)
+        if i.get('kind') != 'UnaryOperator' or i.get('opcode') != '++': return None
+        t = self.skip_wrappers(i['inner'][0])
+        if t.get('kind') != 'DeclRefExpr' or t['referencedDecl']['id'] != v['id']: return None
+        base_id = b['referencedDecl']['id']
+        def writes(n):
+            k = n.get('kind')
+            if k in ('UnaryOperator',) and n.get('opcode') in ('++', '--', '&'):
+                x = self.skip_wrappers(n['inner'][0])
+                if x.get('kind') == 'DeclRefExpr' and x['referencedDecl']['id'] in (v['id'], base_id): return True
+            if k in ('BinaryOperator', 'CompoundAssignOperator') and (k == 'CompoundAssignOperator' or n.get('opcode') == '='):
+                x = self.skip_wrappers(n['inner'][0])
+                if x.get('kind') == 'DeclRefExpr' and x['referencedDecl']['id'] in (v['id'], base_id): return True
+            if k == 'LambdaExpr': return True
+            return any(writes(c) for c in n.get('inner', []) if isinstance(c, dict))
+        if writes(body): return None
+        self.tu.byid[v['id']] = v
+        return v['id'], v['name'], self.names.get(base_id, b['referencedDecl'].get('name'))
 
     def block(self, n, ind):
         if n.get('kind') == 'CompoundStmt': return self.stmt(n, ind)
